@@ -15,7 +15,8 @@
 //!     (len = bytes received, ok = they are exactly the peer's byte stream so far, end: 1 clean EOF,
 //!      2 error/reset, 0 still open after the timeout)
 //! UDP case:  1 2 entry shared nclients (n size_1..size_n)*
-//!   entry 0 UDP remote, 1 SOCKS5 UDP association (shared 1: one association used by all clients)
+//!   entry 0 UDP remote, 1 SOCKS5 UDP association (shared 1: one association used by all clients;
+//!   variant 0/1 IPv4 / domain-name header, 2/3 the same with each client alternating between two targets)
 //!   result per client: mine foreign from_ok header_ok target_got
 use crate::util::*;
 use rusty_penguin_lib::arg::{ClientArgs, Remote, ServerUrl};
@@ -148,6 +149,7 @@ pub struct World {
     udp_port: u16,
     target_tcp: u16,
     target_udp: u16,
+    target_udp2: u16,
     refused: u16,
     scripts: Scripts,
     obs: ObsMap,
@@ -171,7 +173,7 @@ impl World {
         let scripts: Scripts = Arc::default();
         let obs: ObsMap = Arc::default();
         let udp_seen: Arc<Mutex<HashMap<u32, u64>>> = Arc::default();
-        let (tcp_port, tcp_refused_remote, socks_port, http_port, udp_port, target_tcp, target_udp, refused) = rt.block_on(async {
+        let (tcp_port, tcp_refused_remote, socks_port, http_port, udp_port, target_tcp, target_udp, refused, target_udp2) = rt.block_on(async {
             // targets
             let tl = TcpListener::bind("127.0.0.1:0").await.unwrap();
             let target_tcp = tl.local_addr().unwrap().port();
@@ -196,6 +198,21 @@ impl World {
                     let mut reply = vec![b'R'];
                     reply.extend_from_slice(&buf[..n]);
                     let _ = tu.send_to(&reply, from).await;
+                }
+            });
+            let tu2 = UdpSocket::bind("127.0.0.1:0").await.unwrap();
+            let target_udp2 = tu2.local_addr().unwrap().port();
+            let seen2 = udp_seen.clone();
+            tokio::spawn(async move {
+                let mut buf = vec![0u8; 65536];
+                while let Ok((n, from)) = tu2.recv_from(&mut buf).await {
+                    if n >= 4 {
+                        let tag = u32::from_be_bytes([buf[0], buf[1], buf[2], buf[3]]);
+                        *seen2.lock().unwrap().entry(tag).or_default() += 1;
+                    }
+                    let mut reply = vec![b'S'];
+                    reply.extend_from_slice(&buf[..n]);
+                    let _ = tu2.send_to(&reply, from).await;
                 }
             });
             let refused = free_tcp_port().await;
@@ -235,9 +252,9 @@ impl World {
                 tokio::time::sleep(Duration::from_millis(10)).await;
             }
             tokio::time::sleep(Duration::from_millis(100)).await;
-            (tcp_port, tcp_refused_remote, socks_port, http_port, udp_port, target_tcp, target_udp, refused)
+            (tcp_port, tcp_refused_remote, socks_port, http_port, udp_port, target_tcp, target_udp, refused, target_udp2)
         });
-        Self { rt, tcp_port, tcp_refused_remote, uds, socks_port, http_port, udp_port, target_tcp, target_udp, refused, scripts, obs, udp_seen, _tmp: tmp, counter: std::cell::Cell::new(1) }
+        Self { rt, tcp_port, tcp_refused_remote, uds, socks_port, http_port, udp_port, target_tcp, target_udp, target_udp2, refused, scripts, obs, udp_seen, _tmp: tmp, counter: std::cell::Cell::new(1) }
     }
 
     /// open a local connection through the given entry point towards the target (or the refusing port)
@@ -409,18 +426,23 @@ impl World {
             Some(r) => r,
             None => ([127, 0, 0, 1], self.udp_port).into(),
         };
-        let mut header = vec![];
-        if entry == 1 {
-            header.extend([0, 0, 0]);
-            if variant == 0 {
-                header.extend([1, 127, 0, 0, 1]);
-            } else {
-                header.push(3);
-                header.push(9);
-                header.extend(b"localhost");
+        // variants 2 and 3: one client alternates between two targets through the same association
+        let two = entry == 1 && variant >= 2;
+        let mk_header = |port: u16| -> Vec<u8> {
+            let mut header = vec![];
+            if entry == 1 {
+                header.extend([0, 0, 0]);
+                if variant % 2 == 0 {
+                    header.extend([1, 127, 0, 0, 1]);
+                } else {
+                    header.push(3);
+                    header.push(9);
+                    header.extend(b"localhost");
+                }
+                header.extend(port.to_be_bytes());
             }
-            header.extend(self.target_udp.to_be_bytes());
-        }
+            header
+        };
         let mut sent: Vec<Vec<u8>> = vec![];
         for (seq, &sz) in sizes.iter().enumerate() {
             let mut p = vec![];
@@ -432,10 +454,14 @@ impl World {
                 // too short to carry the tag: only used by single-client cases
                 p.extend(stream_bytes(tag, 100 + seq as u64, sz));
             }
-            let mut d = header.clone();
+            let second = two && seq % 2 == 1;
+            let mut d = mk_header(if second { self.target_udp2 } else { self.target_udp });
             d.extend(&p);
             let _ = sock.send_to(&d, dest).await;
-            sent.push(p);
+            // what must come back: the target's mark in front of the payload
+            let mut want = vec![if second { b'S' } else { b'R' }];
+            want.extend(&p);
+            sent.push(want);
             tokio::time::sleep(Duration::from_millis(2)).await;
         }
         let (mut mine, mut foreign, mut from_ok, mut hdr_ok) = (0u64, 0u64, 1u64, 1u64);
@@ -463,7 +489,7 @@ impl World {
                 }
                 body = &body[4 + alen + 2..];
             }
-            let pos = if body.first() == Some(&b'R') { sent.iter().position(|p| p[..] == body[1..]) } else { None };
+            let pos = sent.iter().position(|p| p[..] == body[..]);
             match pos {
                 Some(k) if !seen[k] => {
                     seen[k] = true;
@@ -581,6 +607,8 @@ pub fn generate(a: &Args, out: &mut Out) {
         emit(out, vec![1, 2, 0, 0, 0, 3, 2, 10, 600, 3, 6, 7, 1400, 1, 64]);
         emit(out, vec![1, 2, 1, 0, 0, 3, 2, 10, 600, 3, 6, 7, 1400, 1, 64]);
         emit(out, vec![1, 2, 1, 1, 1, 3, 2, 10, 600, 3, 6, 7, 1400, 1, 64]);
+        emit(out, vec![1, 2, 1, 0, 2, 2, 4, 10, 600, 30, 8, 3, 6, 7, 1400]);
+        emit(out, vec![1, 2, 1, 1, 3, 2, 4, 10, 600, 30, 8, 3, 6, 7, 1400]);
     }
     for _ in 0..a.n {
         if rng.chance(3, 4) {
@@ -605,7 +633,7 @@ pub fn generate(a: &Args, out: &mut Out) {
         } else {
             let entry = rng.below(2);
             let shared = rng.below(2);
-            let variant = rng.below(2);
+            let variant = if entry == 1 { rng.below(4) } else { rng.below(2) };
             let ncl = 1 + rng.below(4);
             let mut c = vec![1, 2, entry, shared, variant, ncl];
             for _ in 0..ncl {
